@@ -73,7 +73,7 @@ CORPORA = {
 # ---------------------------------------------------------------------------
 PROPS = {
     "C01": dict(corpora=["stream_matrix", "stream_faults", "restbind", "httpbody", "restfield"], prefix="C01."),
-    "C02": dict(corpora=["stream_matrix", "stream_headers"], prefix="C02."),
+    "C02": dict(corpora=["stream_matrix", "stream_headers", "timeout"], prefix="C02."),
     "C03": dict(corpora=["stream_matrix", "stream_errors", "stream_faults", "stream_hostile", "httpbody", "suite"], prefix="C03."),
     "C04": dict(corpora=["stream_errors", "stream_hostile", "stream_faults", "stream_reject"], prefix="C04."),
     "C05": dict(corpora=["stream_headers", "stream_errors", "suite"], prefix="C05."),
@@ -89,7 +89,7 @@ PROPS = {
     "C09": dict(corpora=["stream_faults", "stream_zzfaults", "httpbody"], prefix="C09."),
     "C10": dict(corpora=["limits"], prefix="C10."),
     "C20": dict(corpora=["schema", "grpcwrap", "grpcwrap_json"], corpora_thorough=["schema", "schema_errors", "grpcwrap", "grpcwrap_errors", "grpcwrap_json"], prefix="C20."),
-    "C11": dict(corpora=["stream_hostile", "stream_faults", "stream_errors", "stream_reject", "limits"], prefix="C11."),
+    "C11": dict(corpora=["stream_hostile", "stream_faults", "stream_errors", "stream_reject", "stream_get", "limits"], prefix="C11."),
     "C12": dict(corpora=["timeout"], prefix="C12.",
                 # unbounded arithmetic of the gRPC / Connect timeout encoders (SMT): the code's comparisons must be
                 # proved, the what-if (<= at the unit boundaries) must be refuted
